@@ -15,6 +15,8 @@ E-deg units-of-measure interpreter (sa/deg.py) with base symbol lam (rho:3, sigm
  nldf-deg    NLDFAuxiliaryPlan: get_function_to_convolve scales as 3 + RHO_MULT_USPS; eval_rho_full rows (l=0 and
              l=1 dot products, convolutions typed by SPEC_USPS) have the powers get_feat_usps declares
  fl-deg      FracLaplPlan.get_feat (symbolic s, distinct counts) rows vs FracLaplSettings.get_feat_usps
+ tol-deg     each module-level tolerance constant (ALPHA_TOL, ...) is compared / clamped only against quantities of
+             one lambda-degree, over all sites met while interpreting the feature functions
  sdmx-deg    SADMPlan/SDMXPlan/SDMXFullPlan/SDMXIntPlan: abstract run of the constructor (alpha ~ lambda^2) and of
              get_features (projections lambda^3, lambda^4): each feature row has the power its settings declare
  base-deg    exchange baselines (_lda_x/_pbe_x/_chachiyo_x/_vi_x_damp helpers): e has degree 4, de/drho 1
@@ -57,6 +59,55 @@ class Ctx:
         self.s = deg.Session(chk.tree, [ST, FN, PL, BL], attr_default="symbol")
         self.seen = 0
         self.nc = 0
+        self.tol_sites = {}        # (module rel, constant name) -> {(lam-degree text): [(func, text, line)]}
+        self._watch_tolerances()
+
+    def _watch_tolerances(self):
+        """record, for every module-level named tolerance (a tiny numeric literal bound at module level), the
+        lambda-degree of each quantity it is compared with or clamps (x < TOL, TOL > x, np.maximum(TOL, x))"""
+        import ast
+        eng = self.s.eng
+
+        def tol_name(node):
+            if not isinstance(node, ast.Name):
+                return None
+            mod = eng.fr.mod
+            if mod is None or node.id not in mod.assigns:
+                return None
+            v = mod.assigns[node.id]
+            try:
+                val = deg.pf.literal(v)
+            except Exception:
+                return None
+            if isinstance(val, (int, float)) and not isinstance(val, bool) and 0 < abs(val) <= 1e-4:
+                return (mod.rel, node.id)
+            return None
+
+        def record(key, other, node):
+            if isinstance(other, Q) and not other.is_rows and other.deg is not ANY and set(other.deg.d) <= {"lam"}:
+                d = str(other.deg.get("lam"))
+                self.tol_sites.setdefault(key, {}).setdefault(d, []).append(
+                    (eng.fr.name, deg.pf.src(node)[:70], getattr(node, "lineno", 0)))
+
+        def on_compare(node, vals):
+            ops = [node.left] + list(node.comparators)
+            if len(ops) != 2:
+                return
+            for i in (0, 1):
+                k = tol_name(ops[i])
+                if k is not None:
+                    record(k, vals[1 - i], node)
+
+        def on_call(node, name, args, kwargs):
+            if (name or "").split(".")[-1] in ("maximum", "minimum", "fmax", "fmin", "clip") and len(node.args) >= 2:
+                for i, a in enumerate(node.args):
+                    k = tol_name(a)
+                    if k is not None:
+                        for j, v in enumerate(args):
+                            if j != i and j < len(node.args) and tol_name(node.args[j]) is None:
+                                record(k, v, node)
+        eng.compare_observers.append(on_compare)
+        eng.call_observers.append(on_call)
 
     def flush(self, rule, res, where):
         """report the engine's findings for one run"""
@@ -840,6 +891,36 @@ def rule_fraclapl_plan(chk, cx):
     chk.floor("fl-deg", 8, "feature rows of the fractional-Laplacian plan")
 
 
+def rule_tolerances(chk, cx):
+    """A named tolerance is a threshold for ONE kind of quantity: every comparison / clamp that uses the same
+    module-level tolerance constant must apply it to quantities of the same scaling degree (collected while
+    the other rules interpret the code).  A tolerance calibrated for the density (lambda^3) applied to a
+    lambda^5 quantity moves the cut to a different density and the feature is no longer scale-covariant across
+    that line."""
+    n = 0
+    for (rel, name), by_deg in sorted(cx.tol_sites.items()):
+        n += 1
+        sites = sum(len(v) for v in by_deg.values())
+        inst = "%s:%s is applied to quantities of degree %s (%d site(s))" % (rel, name, sorted(by_deg), sites)
+        if len(by_deg) == 1:
+            chk.ok("tol-deg", inst)
+            continue
+        major = max(by_deg, key=lambda d: len({(f, t) for f, t, _ in by_deg[d]}))
+        for d, lst_ in sorted(by_deg.items()):
+            if d == major:
+                continue
+            f, t, line = lst_[0]
+            chk.violation("tol-deg", rel, f, t, line,
+                          "the tolerance %s is compared with a quantity scaling as lambda^(%s) here but with "
+                          "lambda^(%s) quantities elsewhere (%s): one constant cannot be the right threshold for both, "
+                          "the cut moves to a different density" % (
+                              name, d, major, "; ".join("%s `%s`" % (a, b) for a, b, _ in by_deg[major][:3])),
+                          instance=inst + " @ " + f)
+    if not n:
+        raise core.AnalysisError("no named tolerance constant was met while interpreting the feature functions")
+    chk.floor("tol-deg", 1, "ALPHA_TOL (settings.py)")
+
+
 # ----------------------------------------------------------------------------
 def _analyse_own(chk):
     chk.rule("exp-deg", "length-scale exponents scale as lambda^2; derivative degrees 2-3, 2-8, 2-5")
@@ -850,6 +931,7 @@ def _analyse_own(chk):
     chk.rule("base-deg", "exchange baselines have degree 4 (energy density) and 1 (d/drho)")
     chk.rule("nldf-deg", "NLDF plan: convolved function and version-i rows (incl. l=1 dots) have the declared powers")
     chk.rule("fl-deg", "FracLaplPlan.get_feat rows have the powers FracLaplSettings.get_feat_usps declares")
+    chk.rule("tol-deg", "a named tolerance constant is compared only with quantities of one scaling degree")
     chk.rule("sdmx-deg", "SDMX-like plans: constructor-built fit matrices / weights give every feature row its declared power")
     cx = Ctx(chk)
     chk.guard(rule_exponent, cx)
@@ -861,6 +943,7 @@ def _analyse_own(chk):
     chk.guard(rule_sdmx_plans, cx)
     chk.guard(rule_nldf_plan, cx)
     chk.guard(rule_fraclapl_plan, cx)
+    chk.guard(rule_tolerances, cx)
     eng = cx.s.eng
     chk.count("equal-degree obligations decided inside formulas", eng.checks)
     chk.count("branch-join alternatives", len(eng.conflicts))
@@ -965,6 +1048,11 @@ def mutants(tree):
                '"sxg,sxg->sg", self._cached_l1_data[k], self._cached_l1_data[k]', expect="fl-deg"),
         Mutant("rho_mult=expnt multiplies by the exponent twice", PL, "            a[:] *= rho\n            return a, da_tuple",
                "            a[:] *= rho * a\n            return a, da_tuple", expect="nldf-deg"),
+        Mutant("get_alpha masks on tau0 < ALPHA_TOL instead of rho", ST,
+               "    tau0 = get_uniform_tau(rho)\n", "    tau0 = get_uniform_tau(rho)\n    cond = tau0 < ALPHA_TOL\n",
+               expect="tol-deg"),
+        Mutant("ds2 clamps sigma with ALPHA_TOL", ST, "    s = np.sqrt(sigma) / (b * rho ** (4.0 / 3) + 1e-16)\n    s2 = s**2",
+               "    s = np.sqrt(np.maximum(sigma, ALPHA_TOL)) / (b * rho ** (4.0 / 3) + 1e-16)\n    s2 = s**2", expect="tol-deg"),
         Mutant("LDA exchange rho^(4/3) -> rho^(1/3)", BL, "e[:] += LDA_FACTOR * rho ** (4.0 / 3)\n",
                "e[:] += LDA_FACTOR * rho ** (1.0 / 3)\n", expect="base-deg"),
         Mutant("PBE dedx[1] loses rho^(4/3)", BL, "dedx[1] += LDA_FACTOR * rho ** (4.0 / 3) * dfx",
